@@ -73,6 +73,7 @@ impl Redeemer {
             .map_err(|e| e.annotate("data"))?;
         let ex_units = (|| -> Result<_, DeserializeError> { Ok(ExUnits::deserialize(raw)?) })()
             .map_err(|e| e.annotate("ex_units"))?;
+        read_len.finish()?;
         check_len_indefinite(raw, len)?;
         Ok(Redeemer {
             tag,
@@ -106,6 +107,7 @@ impl Redeemer {
         let tag = RedeemerTag::deserialize(raw)?;
         let index = BigNum::deserialize(raw)?;
 
+        read_len.finish()?;
         check_len_indefinite(raw, len)?;
 
         Ok((tag, index))
@@ -121,6 +123,7 @@ impl Redeemer {
         let data = PlutusData::deserialize(raw)?;
         let ex_units = ExUnits::deserialize(raw)?;
 
+        read_len.finish()?;
         check_len_indefinite(raw, len)?;
 
         Ok((data, ex_units))
